@@ -8,6 +8,8 @@ iteration counter are advanced as Simulator.run does.  Symbolic: requested energ
 """
 import math
 
+import numpy as _np
+
 from symx import env, core
 from symx.core import le, lt, ge, gt, eq, ne, and_, or_, implies, not_, iff, ite, is_sym, sym_max, sym_min
 from props.simlib import acn, START
@@ -142,8 +144,9 @@ def feasible_def(sc, x, scale=1.0):
     for i, row in enumerate(sc.rows):
         L = sc.limits[i]
         lt_ = (L + sym_max(1e-5, 1e-7 * L)) * scale
-        re = sum(row[j] * x[j] * math.cos(math.radians(sc.stations[j][2])) for j in range(len(x)))
-        im = sum(row[j] * x[j] * math.sin(math.radians(sc.stations[j][2])) for j in range(len(x)))
+        # the same double-precision trigonometric constants as the algorithm-side checker (numpy), so that exact-arithmetic decisions coincide
+        re = sum(row[j] * x[j] * float(_np.cos(_np.deg2rad(float(sc.stations[j][2])))) for j in range(len(x)) if row[j] != 0)
+        im = sum(row[j] * x[j] * float(_np.sin(_np.deg2rad(float(sc.stations[j][2])))) for j in range(len(x)) if row[j] != 0)
         if all(sc.stations[j][2] == 0 for j in range(len(x)) if row[j] != 0):
             conj.append(and_(le(re, lt_), le(-re, lt_)))
         else:
